@@ -17,7 +17,8 @@ Definition b (s : string) : bytes := List.map N_of_ascii (list_ascii_of_string s
 Inductive perr :=
 | NoMatch | UnsupportedMetadata | MissingFilenameForHunk | UnexpectedEndOfLine | UnexpectedEndOfFile
 | BadHunkHeader | BadLineInHunk | NumberTooBig | BadNumber | BadMode | BadSequence | BadHash
-| UnsafeFilename.
+| UnsafeFilename
+| EmptyFilename.
 
 Inductive pres (A : Type) : Type :=
 | POk (rest : bytes) (a : A)
@@ -612,6 +613,11 @@ Definition unsafe_fp (fp : pfilepatch) : bool :=
   match pf_old fp with Some n => is_unsafe n | None => false end ||
   match pf_new fp with Some n => is_unsafe n | None => false end.
 
+(* a name with fewer components than the strip level: nothing is left of it *)
+Definition empty_name_fp (fp : pfilepatch) : bool :=
+  match pf_old fp with Some [] => true | _ => false end ||
+  match pf_new fp with Some [] => true | _ => false end.
+
 (* ---------- parse_patch ---------- *)
 
 Record ppatch := { pp_header : bytes; pp_fps : list pfilepatch }.
@@ -630,7 +636,8 @@ Fixpoint parse_patch_loop (fuel : nat) (input : bytes) (strip : nat) (wants_head
       | POk i (h, fp) =>
           let header' := if wants_header then h else header in
           let fp' := strip_fp strip fp in
-          if unsafe_fp fp' then Ok (ParseErr UnsafeFilename)
+          if empty_name_fp fp' then Ok (ParseErr EmptyFilename)
+          else if unsafe_fp fp' then Ok (ParseErr UnsafeFilename)
           else parse_patch_loop f i strip false header' (acc ++ [fp'])
       end
   end.
